@@ -15,6 +15,7 @@ import (
 	dagsched "github.com/ErdemOzgen/blackdagger/internal/dag/scheduler"
 	"github.com/ErdemOzgen/blackdagger/internal/logger"
 	dsclient "github.com/ErdemOzgen/blackdagger/internal/persistence/client"
+	"github.com/ErdemOzgen/blackdagger/internal/persistence/jsondb"
 	"github.com/ErdemOzgen/blackdagger/internal/persistence/model"
 	daemon "github.com/ErdemOzgen/blackdagger/internal/scheduler"
 	"github.com/ErdemOzgen/blackdagger/internal/util"
@@ -1207,6 +1208,15 @@ func agentRetry(t *testing.T, tp *simrt.Tape, cfg simrt.Config, sc *agentScenari
 		if recorded == nil {
 			return // killed before anything was recorded: nothing to retry
 		}
+		// what "the recorded run" is, is what the store's own lookup returns (C07 judges that lookup): the
+		// last line of a killed run's record may be unterminated, and whether such a line counts is the
+		// store's business, not this oracle's
+		if sf, err := jsondb.New(dataDir, true).FindByRequestID(path, recorded.RequestID); err == nil && sf != nil && sf.Status != nil {
+			if lineVectorOf(sf.Status) != lineVectorOf(recorded) {
+				w.Probe("store_lookup_differs_from_last_parsable_line")
+			}
+			recorded = sf.Status
+		}
 		if b, ok := fsOf(w).GetFile(recordedFile); ok {
 			recordedBytes = string(b)
 		}
@@ -1312,7 +1322,7 @@ func agentRetry(t *testing.T, tp *simrt.Tape, cfg simrt.Config, sc *agentScenari
 		fn := finalLabel[name]
 		if !inR[name] {
 			if len(rs) != 0 {
-				chk.viol("kept-step-executed", recLabel[name], "step %s was recorded %s and is not downstream of an unfinished step, but the retry executed it %d times", name, recLabel[name], len(rs))
+				chk.viol("kept-step-executed", recLabel[name], "step %s was recorded %s and is not downstream of an unfinished step, but the retry executed it %d times; recorded vector %v; lines: %s; retry log: %s", name, recLabel[name], len(rs), recLabel, lineVectors(recordedBytes)+fmt.Sprintf(" [file: %d bytes, %d newlines, ends with newline: %v, line lengths %v]", len(recordedBytes), strings.Count(recordedBytes, "\n"), strings.HasSuffix(recordedBytes, "\n"), lineLens(recordedBytes)), lastLines(retry.proc, 3))
 			}
 			if fn == nil {
 				chk.viol("kept-step-missing", recLabel[name], "step %s missing from the retry's record", name)
@@ -1412,6 +1422,22 @@ func expectedAttempts(d *DagSpec) map[string]int {
 		return map[string]int{}
 	}
 	return att
+}
+
+func lineVectorOf(st *model.Status) string {
+	v := st.Status.String() + ":"
+	for _, n := range st.Nodes {
+		v += n.Step.Name + "=" + n.Status.String() + ","
+	}
+	return v
+}
+
+func lineLens(file string) []int {
+	var out []int
+	for _, ln := range strings.Split(file, "\n") {
+		out = append(out, len(ln))
+	}
+	return out
 }
 
 func lineVectors(file string) string {
